@@ -448,7 +448,89 @@ fn part_scalar_literals(ctx: &Ctx, sink: &mut Sink) {
     }
 }
 
+/// (8) programs that read their inputs (`#name`, `inputs.name`, inside functions, callbacks and do-blocks), evaluated in
+/// sessions whose input documents lay the heap out differently, with unrelated input-reading evaluations in between:
+/// the same program on the same inputs gives the same results whatever was evaluated before on this thread, and
+/// `#name` equals `inputs.name` throughout.
+fn part_inputs(ctx: &Ctx, sink: &mut Sink) {
+    let docs = [
+        json!({"x": 2, "a": 1}),
+        json!({"cfg": {"x": 1, "a": 7}, "x": 2, "a": 3}),
+        json!({"pad": "some text", "more": [1, 2, [3, {"x": 9}]], "x": 5, "a": 4, "s": "str"}),
+        json!({"a": 10}),
+        json!({"x": [1, 2, 3], "a": {"x": 100}, "deep": {"deeper": {"x": 1, "a": 2}}}),
+        json!({}),
+        json!({"x": null, "a": false, "f": {"__blots_function": "(q) => q + 1"}}),
+        json!({"k1": "v1", "k2": "v2", "k3": "v3", "k4": {"k5": ["v6"]}, "x": 42, "a": -1}),
+    ];
+    let programs = [
+        "#x",
+        "[#x, inputs.x]",
+        "#x .== inputs.x",
+        "f = k => #x * k + inputs.x\nf(10)",
+        "g = () => [#a, #x, #absent]\ng()",
+        "[1, 2] via (q => [q, #a])",
+        "do {\n t = #a\n return [t, inputs.a, #x]\n}",
+        "h = n => if n <= 0 then #a else h(n - 1)\nh(3)",
+        "output o = #x\noutput p = {a: #a, whole: inputs}",
+        "keys(inputs)",
+        "#absent ?? \"none\"",
+        "typeof(#x) + typeof(inputs.a)",
+    ];
+    let run = |doc: &serde_json::Value, prog: &str| -> Vec<ROut> {
+        let s = Sess::with_inputs(doc);
+        match s.run(prog, false) {
+            Ok(outs) => outs.iter().map(|o| s.rout(&o.out)).collect(),
+            Err(e) => vec![ROut::Err(e)],
+        }
+    };
+    let n = ctx.budget(1_500, 60_000);
+    for i in 0..n {
+        if !ctx.mine(i) {
+            continue;
+        }
+        let mut r = Rng::derive(ctx.seed, "c02-inputs", i);
+        let (di, pi) = if (i as usize) < docs.len() * programs.len() { ((i as usize) % docs.len(), (i as usize) / docs.len()) } else { (r.below(docs.len()), r.below(programs.len())) };
+        let (doc, prog) = (&docs[di], programs[pi]);
+        // reference: a brand-new thread (no thread-local state from earlier evaluations)
+        let (d2, p2) = (doc.clone(), prog.to_string());
+        let fresh = std::thread::spawn(move || {
+            let s = Sess::with_inputs(&d2);
+            match s.run(&p2, false) {
+                Ok(outs) => outs.iter().map(|o| s.rout(&o.out).show()).collect::<Vec<_>>(),
+                Err(e) => vec![format!("Err({})", e)],
+            }
+        })
+        .join()
+        .unwrap_or_default();
+        // on this (long-lived) thread: an unrelated input-reading evaluation on another document first
+        let other_doc = &docs[(di + 1 + r.below(docs.len() - 1)) % docs.len()];
+        let _ = run(other_doc, programs[r.below(programs.len())]);
+        let here = run(doc, prog);
+        let again = run(doc, prog);
+        sink.case(&format!("c02i|{}|{}", di, pi), !here.is_empty() && matches!(here[here.len() - 1], ROut::Ok(_)));
+        sink.count("input_reading_twin_runs", 1);
+        let shown: Vec<String> = here.iter().map(|o| o.show()).collect();
+        if shown != fresh || here.len() != again.len() || here.iter().zip(again.iter()).any(|(a, b)| !a.agrees(b)) {
+            sink.viol(
+                "twin-run-differs input-reading-program",
+                "a program reading its inputs gives different results on a fresh thread and after unrelated evaluations on a long-lived one",
+                json!({"inputs": doc, "program": prog, "evaluated_before_with_inputs": other_doc, "fresh_thread": fresh, "after_other_evaluations": shown, "once_more": again.iter().map(|o| o.show()).collect::<Vec<_>>()}),
+            );
+        }
+        // `#x` is `inputs.x`
+        if prog == "[#x, inputs.x]" {
+            if let Some(ROut::Ok(crate::rt::RVal::List(l))) = here.last() {
+                if l.len() == 2 && l[0] != l[1] {
+                    sink.viol("input-reference-differs-from-field-access", "`#x` and `inputs.x` differ", json!({"inputs": doc, "got": shown}));
+                }
+            }
+        }
+    }
+}
+
 pub fn run(ctx: &Ctx, sink: &mut Sink) {
+    part_inputs(ctx, sink);
     part_directed(ctx, sink);
     part_scalar_literals(ctx, sink);
     let cli = ctx.opt("cli").map(|s| s.to_string());
